@@ -719,7 +719,6 @@ def r01_11(ctx, p):
     for n in mod.tree.body:
         if isinstance(n, ast.Assign) and any(isinstance(t, ast.Name) and t.id == "DISTRIBUTION_CLASSES" for t in n.targets):
             listed = [x.id for x in n.value.elts]
-    ctx.floor("R01.11", "distribution_classes", len(listed), 8)
     base = mod.classes["BaseDistribution"]
     concrete = [c.name for c in p.subclasses(base) if c.module is mod]
     ctx.check(set(concrete) == set(listed), "R01.11", mod.relpath, "all-classes-listed",
@@ -757,6 +756,7 @@ def r01_11(ctx, p):
         ctx.check(out == params, "R01.11", c.module.relpath + "::" + c.name, "asdict-keys-equal-ctor-params",
                   message=f"{name}: _asdict() yields keys {sorted(out)} but the constructor takes {sorted(params)}: json_to_distribution(cls(**attributes)) fails or drops a field",
                   how=f"{sorted(out)} == {sorted(params)}")
+    ctx.floor("R01.11", "distribution_classes", len(listed), 8)
 
 
 # ------------------------------------------------------------------------------------------------
